@@ -33,28 +33,32 @@ def encrypt (st : St) (L R : UInt32) : UInt32 × UInt32 := Id.run do
   -- after 16 rounds: tmp4 = R; R = L; L = tmp4 ^ P[17]   (the last `l ^= P[16]`‑style xor above used P[16])
   return (r ^^^ st.P[17]!, l)
 
-/-- `BF_set_key (key, expanded, initial, flags)`; `key` is the NUL-free phrase (the C reads its terminator too) -/
-def setKey (key : Bytes) (flags : Nat) : Array UInt32 × Array UInt32 := Id.run do
-  let kz := (key ++ [0]).toArray          -- the bytes the C cycles through
-  let n := kz.size
+/-- the bytes `BF_set_key` reads: the phrase and its terminator, cyclically (`kz` = phrase ++ [0]); `k` bytes from position `pos` -/
+def keyStream (kz : Bytes) : Nat → Nat → Bytes
+  | 0, _ => []
+  | k + 1, pos =>
+    let c := cat kz pos
+    let pos1 := if c = 0 then 0 else pos + 1
+    let pos2 := if pos1 ≥ kz.length then 0 else pos1
+    c :: keyStream kz k pos2
+
+/-- `BF_set_key` on the 72 bytes it reads -/
+def setKeyFrom (ks : Array UInt8) (flags : Nat) : Array UInt32 × Array UInt32 := Id.run do
   let bug := flags % 2 = 1
   let safety : UInt32 := if flags / 2 % 2 = 1 then 0x10000 else 0
   let mut sign : UInt32 := 0
   let mut diff : UInt32 := 0
-  let mut pos : Nat := 0
   let mut expanded : Array UInt32 := Array.mkEmpty 18
   let mut initial : Array UInt32 := Array.mkEmpty 18
   for i in [0:18] do
     let mut t0 : UInt32 := 0
     let mut t1 : UInt32 := 0
     for j in [0:4] do
-      let c : UInt8 := kz[pos]!
+      let c : UInt8 := ks[4 * i + j]!
       t0 := (t0 <<< 8) ||| c.toUInt32
       let sx : UInt32 := if c ≥ 0x80 then 0xffffff00 ||| c.toUInt32 else c.toUInt32
       t1 := (t1 <<< 8) ||| sx
       if j ≠ 0 then sign := sign ||| (t1 &&& 0x80)
-      pos := if c = 0 then 0 else pos + 1
-      if pos ≥ n then pos := 0
     diff := diff ||| (t0 ^^^ t1)
     let t := if bug then t1 else t0
     expanded := expanded.push t
@@ -66,6 +70,11 @@ def setKey (key : Bytes) (flags : Nat) : Array UInt32 × Array UInt32 := Id.run 
   sign := sign &&& (~~~ diff) &&& safety
   initial := initial.set! 0 (initial[0]! ^^^ sign)
   return (expanded, initial)
+
+/-- `BF_set_key (key, expanded, initial, flags)`; `key` is the NUL-free phrase (the C reads its terminator too):
+    18 words of 4 bytes taken cyclically from the phrase and its terminator -/
+def setKey (key : Bytes) (flags : Nat) : Array UInt32 × Array UInt32 :=
+  setKeyFrom (keyStream (key ++ [0]) 72 0).toArray flags
 
 /-- `BF_body ()`: re-key P then S by chained encryption of the running (L, R), starting from zero -/
 def body (st : St) : St := Id.run do
